@@ -4,13 +4,15 @@ CONSTANTS
   AllSchedules = FALSE
   PermuteModules = FALSE
   NB0 = {0, 1, 2}
-  Variants = {"none", "same", "ext", "extm0", "trunc", "swap", "rename", "recv", "ptype", "pcount", "ret", "cc", "argname", "vis", "doc"}
+  Variants = {"none", "same", "ext", "extm0", "emptyblk", "trunc", "swap", "rename", "recv", "ptype", "pcount", "ret", "cc", "argname", "vis", "doc"}
   WithB1 = {FALSE, TRUE}
   B1Vft = {FALSE, TRUE}
   Clash = {"no", "derived"}
   DDs = {"none", "plain", "diamond"}
   DDVft = {FALSE, TRUE}
   Ptrs = {4, 8}
+  Lead = {FALSE, TRUE}
+  EmptyBlocks = {FALSE, TRUE}
   Split = {FALSE}
 INVARIANTS Replay
 CHECK_DEADLOCK FALSE
